@@ -369,6 +369,12 @@ def mpms_spec(draw):
         j = draw(st.integers(0, len(nodes) - 1))
         node = {"op": draw(st.sampled_from(["add", "sub", "add", "maximum"])),
                 "args": [["n", i], ["n", j]]}
+        # (no structural twins: a node pre-tagged ImplStored next to an equal
+        # untagged one is the listed finding C05-mpms-tagged-twin, whose
+        # allowance would hide other idempotence failures in the same graph)
+        if any(m.get("op") == node["op"] and m.get("args") == node["args"]
+               for m in nodes):
+            continue
         if draw(st.integers(0, 3)) == 0:
             node["tags"] = [["ImplStored"]]
         nodes.append(node)
